@@ -42,12 +42,17 @@ def distribution(cases, raws):
             "outcome_kinds": dict(outcomes), "in_domain_and_valid": valid}
 
 
+RC_LEVEL = {}   # filled by correspondence(): the cases and raw outcomes of requirement_constraint_evaluation
+
+
 def correspondence(ctx, cases, tag, levels=("node", "rc")):
     """tie C; returns raw node-level outcomes aligned with cases"""
     raws = None
     for lvl in levels:
         sub = cases if lvl == "node" or not ctx.quick else cases[:: max(1, len(cases) // 2500)]
         n, bad, r = evalcorr.run_eval_correspondence(ctx, sub, lvl, tag=tag)
+        if lvl == "rc":
+            RC_LEVEL["cases"], RC_LEVEL["raws"] = sub, r
         if lvl == "node":
             raws = r
             ctx.notes["input_distribution"] = distribution(cases, r)
@@ -79,6 +84,16 @@ def run(ctx):
             continue
         if v.conditions_fulfilled != want:
             ctx.fail(f"{key[0]}|{key[1]}|state", {"expression": key[0], "rc": rho}, str(want), str(v.conditions_fulfilled), "oracle: state differs from the compositional semantics")
+    # ... and the reported outcome of requirement_constraint_evaluation follows that state
+    want_outcome = {V.FULFILLED: (True, True), V.NEUTRAL: (True, False), V.UNFULFILLED: (False, True), V.UNKNOWN: (None, None)}
+    for (t, rho), (tag, v) in zip(RC_LEVEL.get("cases", []), RC_LEVEL.get("raws", [])):
+        if not (exprs.dom(t) and exprs.valid(t)) or tag != "ok":
+            continue
+        want = want_outcome[exprs.sem(t, {k: V[s] for k, s in rho.items()}, V)]
+        got = (v.requirement_constraints_fulfilled, v.requirement_is_conditional)
+        if got != want:
+            ctx.fail(f"{exprs.show(t)}|{tuple(sorted(rho.items()))}|outcome", {"expression": exprs.show(t), "rc": rho}, f"(fulfilled, conditional) = {want}", str(got),
+                     "oracle: reported outcome differs from the one the compositional state stands for")
     ctx.coverage["distinct_nontrivial"] = nontrivial
     ctx.coverage["rule"] = ("all trees with <= 3 leaves over keys {1,2|501,502|901,902} x 4 operators x all assignments of {FULFILLED,UNFULFILLED,UNKNOWN} "
                             "(exhaustive), plus random in-domain trees up to the tier's leaf bound; every case goes through evaluate_requirement_constraint_tree "
